@@ -3,13 +3,15 @@ Driver commands of C07.
   cxxframer <capacity> <mode> <op>,<op>,…   literal model of one framer object
       mode  0..3 : FusionEngineFramer(user_buf, capacity) with user_buf ≡ mode (mod 4)
             i    : FusionEngineFramer(capacity) (internal allocation, allocator returns 4-aligned memory)
-      op    hex bytes = one OnData call, `-` = OnData with no bytes, `R` = Reset()
+      op    hex bytes = one OnData call, `-` = OnData with no bytes, `R` = Reset(),
+            `Bu<k>:<c>` = SetBuffer(p, c) with caller storage p ≡ k (mod 4), `Bi:<c>` = SetBuffer(nullptr, c)
       answer: records joined by `;`
             init|<buffer_ != nullptr>|<capacity_bytes_>
             <a>:<hex>,…|<ret>|<state_>|<next_byte_index_>|<current_message_size_>|<s>     per OnData (callbacks: address
                       of the header mod 4 and the bytes header+payload, `-` if none; s = 1 iff every buffer index
                       accessed so far was < capacity_bytes_, i.e. the ghost field `hi ≤ cap`)
             R|<state_>|<next_byte_index_>|<current_message_size_>                         per Reset
+            B|<buffer_ != nullptr>|<capacity_bytes_>|<state_>|<next_byte_index_>|<current_message_size_>   per SetBuffer
       (the C++ harness cxx/c07_harness.cc answers the same request with the same records, without <s>)
   cxxscan <capacity_bytes_> <hex>           the specification: `(cfgCxx cap).run` → msgs|restlen|off
 -/
@@ -23,12 +25,34 @@ def showState (f : Framer) : String := s!"{f.state.toNat}|{f.next}|{f.cur}"
 def showCbs (f : Framer) (cbs : List Bytes) : String :=
   if cbs.isEmpty then "-" else ",".intercalate (cbs.map fun m => s!"{f.addr % 4}:{toHex m}")
 
+/-- `Bu<k>:<c>` → caller storage at an address ≡ k (mod 4); `Bi:<c>` → `nullptr` (allocator returns 4-aligned memory). -/
+def parseSetBuffer (op : String) : Option (Option Nat × Nat × Nat) :=
+  match op.splitOn ":" with
+  | [kind, c] =>
+    match c.toNat? with
+    | none => none
+    | some c =>
+      if c > 4194304 then none
+      else if kind == "Bi" then some (none, 8192, c)
+      else if kind.startsWith "Bu" then
+        match (kind.drop 2).toNat? with
+        | some k => if k < 4 then some (some (12288 + k), 0, c) else none
+        | none => none
+      else none
+  | _ => none
+
 def cxxOps (f : Framer) (ops : List String) (acc : List String) : Option (List String) :=
   match ops with
   | [] => some acc.reverse
   | op :: rest =>
     if op == "R" then
       cxxOps f.reset rest (s!"R|{showState f.reset}" :: acc)
+    else if op.startsWith "B" then
+      match parseSetBuffer op with
+      | none => none
+      | some (user, alloc, c) =>
+        let g := f.setBuffer user alloc c
+        cxxOps g rest (s!"B|{if g.hasBuf then 1 else 0}|{g.cap}|{showState g}" :: acc)
     else
       match (if op == "-" then some [] else ofHex op) with
       | none => none
